@@ -46,6 +46,12 @@ Proof. exact fix_characterisation. Qed.
 Theorem C06_current_discipline : all_guards cur = true /\ c_rq cur = true /\ c_tr cur = true.
 Proof. vm_compute. auto. Qed.
 
+(* The only re-queue events of the model are the user's queue() and the peer's request.  The third source
+   of re-queues in the code, the shares / block-list cycle, never applies to an upload the user aborted:
+   `_evaluate_aborted_state` examines "abort requested" first (read off the source). *)
+Theorem C06_user_abort_has_precedence : USER_ABORT_HAS_PRECEDENCE = true.
+Proof. reflexivity. Qed.
+
 (* non-vacuity *)
 Example C06_stop_nonvacuous :
   let s := run cur (init Down) [Cycle; Start 0] in
